@@ -661,6 +661,13 @@ def r22(ctx):
         listed = any(not pol and k.endswith('.end())') and '==' in k and '&&' not in k and '||' not in k for k, pol in atoms) or \
             any(pol and k.endswith('.end())') and '!=' in k and '&&' not in k and '||' not in k for k, pol in atoms)
         notrepl = any(k.startswith('(%s == ' % raw) and 'getReplacement()' in k and not pol and '&&' not in k and '||' not in k for k, pol in atoms)
+        # a flag local that holds the outcome of the lookup (const bool found = it != m_values.end())
+        for d_, init in fn.single_defs().items():
+            ik = fn.key(init)
+            if ik.endswith('.end())') and '&&' not in ik and '||' not in ik and ('!=' in ik or '==' in ik):
+                nm = d_.split(':')[-1]
+                if (nm, '!=' in ik) in atoms:
+                    listed = True
         ok = listed or notrepl
         ctx.ob('C05.R22', fn, x, ok, 'raw value printed as a number', 'only for a listed value (%s) or one that is not the replacement value (%s)' % (listed, notrepl))
     if n < 3:
